@@ -41,7 +41,7 @@ def gen_rar_cases(tier, seed, n_direct, n_e2e):
                  n=n0 + steps_cap * sel_x + slack_x, nt=nt0 + (steps_cap if rng.integers(2) else steps_cap + 1) * sel_t + slack_t,
                  cand_t=sel_t + int(rng.integers(0, 4)), cand_x=sel_x + int(rng.integers(0, 5)),
                  mode="direct" if k < n_direct else "e2e", draws=int(rng.integers(0, 4)),
-                 system=bool(k % 5 == 4), legs=2 if k % 4 == 1 else 1, seed=seed * 100000 + k, cost=2.0)
+                 system=bool(k % 5 == 4), legs=2 if k % 7 in (1, 3, 5) else 1, seed=seed * 100000 + k, cost=2.0)
         # a store smaller than one set of additions can never be refined: not generated
         c["n"] = max(c["n"], sel_x)
         c["nt"] = max(c["nt"], sel_t)
